@@ -594,7 +594,61 @@ def run(chk, facts, tier, only=None):
                            where=where(t, n), ok_detail="guarded by !env.pre" if guarded(t, n) else "existence test only (value dropped)")
         chk.floor("environment lookups in the declaration pass", n_sites, 2)
 
-    for rid, desc, fn in (("C14.R1", "each well-formedness rule has an enforcing check on every accepting path", r1),
+    def r5():
+        """Argument names of one list are unique wherever a list of named arguments is accepted: function parameters and results, the
+        parameters of a service constructor, and the init-args file. The link between a production and the nonterminals it uses is only
+        in the grammar source (the LR tables are trusted runtime), so this one rule reads rust/candid_parser/src/grammar.lalrpop: every
+        nonterminal of type Vec<IDLArgType> that a consumer production uses must run check_unique over the names (itself or through the
+        nonterminal it wraps)."""
+        from extract import REPO
+        import os
+        gpath = os.path.join(REPO, "rust/candid_parser/src/grammar.lalrpop")
+        if not os.path.exists(gpath):
+            raise AnchorMissing("rust/candid_parser/src/grammar.lalrpop not found")
+        src = open(gpath).read()
+        # strip comments (the grammar has no `//` inside string literals that matter here)
+        src_nc = re.sub(r"//[^\n]*", "", src)
+        nts = {}
+        for m in re.finditer(r"(?m)^(?:pub\s+)?(\w+)\s*(?:<[^>\n]*>)?\s*:\s*([^=\n]+?)\s*=\s*", src_nc):
+            nts[m.group(1)] = (m.group(2).strip(), m.start(), m.end())
+        order = sorted(nts.items(), key=lambda kv: kv[1][1])
+        bodies = {}
+        for i, (name, (ty, st, en)) in enumerate(order):
+            end = order[i + 1][1][1] if i + 1 < len(order) else len(src_nc)
+            bodies[name] = src_nc[en:end]
+        arglists = {n for n, (ty, _s, _e) in nts.items() if re.sub(r"\s", "", ty) == "Vec<IDLArgType>"}
+        if not arglists:
+            raise AnchorMissing("grammar.lalrpop: no nonterminal of type Vec<IDLArgType> found")
+
+        def checked(n, seen=()):
+            if n in seen or n not in bodies:
+                return False
+            if "check_unique" in bodies[n]:
+                return True
+            inner = [x for x in re.findall(r"\b(\w+)\b", bodies[n]) if x in arglists and x != n]
+            # a wrapper is checked only if everything it is made of is
+            return bool(inner) and all(checked(x, seen + (n,)) for x in inner)
+        consumers = {"function type (FuncType { .. })": r"FuncType\s*\{", "service constructor (ClassT)": r"ClassT\s*\(", "init-args file (IDLInitArgs { .. })": r"IDLInitArgs\s*\{"}
+        n_used = 0
+        for what, rx in consumers.items():
+            users = [n for n, b in bodies.items() if re.search(rx, b)]
+            if not users:
+                raise AnchorMissing(f"grammar.lalrpop: no production builds a {what}")
+            for u in users:
+                for alt in bodies[u].split("=>"):
+                    pass
+                used = sorted({x for x in re.findall(r"<\s*\w+\s*:\s*(\w+)\s*>", bodies[u]) if x in arglists})
+                # restrict to the alternative(s) that build the consumer: an alternative is the text between two `,\n` separators at depth 0; approximated by lines
+                for ntname in used:
+                    n_used += 1
+                    chk.expect(checked(ntname), f"arg-names-unique:{what.split(' (')[0]}:{ntname}",
+                               f"grammar.lalrpop: the production `{u}` builds a {what} from the nonterminal `{ntname}`, which does not run check_unique over the "
+                               f"argument names: `(owner : principal, owner : nat)` is accepted there although argument names of one list must be unique",
+                               where=f"rust/candid_parser/src/grammar.lalrpop ({u})", ok_detail=f"{ntname} sorts the names and runs check_unique")
+        chk.floor("uses of argument-list nonterminals in function / constructor / init-args productions", n_used, 3)
+
+    for rid, desc, fn in (("C14.R5", "argument names are checked unique in every production that accepts a named argument list", r5),
+                          ("C14.R1", "each well-formedness rule has an enforcing check on every accepting path", r1),
                           ("C14.R2", "recursive walkers over a checked environment guard the Var arm with a visited set", r2),
                           ("C14.R3", "labels, method names and argument names are sorted and checked unique; imported method hashes are unique", r3),
                           ("C14.R4", "the declaration pass never resolves a name through the partially built environment (acceptance is independent of definition order)", r4)):
